@@ -50,11 +50,15 @@ def run(ctx):
         ok = len(c) == 1 and len(c[0].args) == 3 and norm(c[0].args[2]) == graceful
         ctx.check('R1', f'Pool.{m} calls _close(timeout, force, {graceful})', ok, f'Pool.{m}', f'{m}-delegation', f'Pool.{m} does not delegate to _close(..., {graceful})', where=loc(f, f.node))
     # _close: one clean-up per worker, all joined
-    ctx.require('cleanup_worker' in cl.nested, 'Pool._close: cleanup_worker closure not found')
-    cw = cl.nested['cleanup_worker']
+    # the per-worker clean-up job: the closure handed to Thread(target=...) in _close (found by role, not by name)
+    targets = [k.value.id for c in calls_in(cl.node) if last_attr(c) == 'Thread' for k in c.keywords if k.arg == 'target' and isinstance(k.value, ast.Name) and k.value.id in cl.nested]
+    ctx.require(targets, 'Pool._close: the per-worker clean-up closure (Thread target) was not found')
+    cw = cl.nested[targets[0]]
+    CWN = cw.name
+    WV = cw.params[0] if cw.params else 'worker'
     ctx.used(cw)
     loops = [n for n in walk_local(cl.node) if isinstance(n, ast.For) and 'self._workers' in norm(n.iter)]
-    ok = bool(loops) and any(last_attr(c) == 'Thread' and any(k.arg == 'target' and is_name(k.value, 'cleanup_worker') for k in c.keywords) for c in calls_in(loops[0])) \
+    ok = bool(loops) and any(last_attr(c) == 'Thread' and any(k.arg == 'target' and is_name(k.value, CWN) for k in c.keywords) for c in calls_in(loops[0])) \
         and any(last_attr(c) == 'start' for c in calls_in(loops[0]))
     ctx.check('R1', 'Pool._close starts one clean-up thread per registered worker', ok, 'Pool._close', 'cleanup-not-per-worker',
               '_close does not start a clean-up for every registered worker', where=loc(cl, cl.node))
@@ -66,8 +70,8 @@ def run(ctx):
 
     def posts(name):
         # 'attempted': the call is started (its own failure is logged by the per-worker handler)
-        return {n.id for n in gw.nodes if n.stmt is not None and n.part == 'eval' and any(last_attr(c) == name and receiver(c) == 'worker' for c in n.calls())}
-    alive_tests = [n for n in gw.nodes if n.kind == 'test' and norm(n.stmt.test) == 'not worker.is_alive()' and n.part in (None, 'post')]
+        return {n.id for n in gw.nodes if n.stmt is not None and n.part == 'eval' and any(last_attr(c) == name and receiver(c) == WV for c in n.calls())}
+    alive_tests = [n for n in gw.nodes if n.kind == 'test' and norm(n.stmt.test) == f'not {WV}.is_alive()' and n.part in (None, 'post')]
     ctx.require(alive_tests, 'cleanup_worker: liveness test not found')
     starts = [e.dst for n in alive_tests for e in n.succ if e.kind == 'false']
     for name in ('close', 'wait'):
@@ -78,7 +82,7 @@ def run(ctx):
         ctx.check('R1', f'cleanup_worker: a live worker is always {name}()d', p is None and bool(ids), 'Pool._close.<cleanup_worker>', f'cleanup-skips-{name}',
                   f'the clean-up of a live worker can skip {name}()', where=loc(cw, cw.node), path=path_str(p or []))
     # the escalation condition
-    esc = [st for st in walk_local(cw.node) if isinstance(st, ast.If) and any(last_attr(c) == 'terminate' and receiver(c) == 'worker' for x in st.body for c in calls_in(x))]
+    esc = [st for st in walk_local(cw.node) if isinstance(st, ast.If) and any(last_attr(c) == 'terminate' and receiver(c) == WV for x in st.body for c in calls_in(x))]
     ok = len(esc) == 1
     cond = norm(esc[0].test) if ok else None
     av = [st.targets[0].id for st in walk_local(cw.node) if isinstance(st, ast.Assign) and isinstance(st.targets[0], ast.Name) and isinstance(st.value, ast.UnaryOp)
@@ -161,7 +165,10 @@ def run(ctx):
     if hs:
         h = hs[0]
         dels = {m for op, m, key, st in map_ops(aw) if op == 'del' and any(st is x for x in ast.walk(h))}
-        term = any(last_attr(c) == 'terminate' and receiver(c) == 'worker' for x in h.body for c in calls_in(x))
+        # the local holding the new worker: what add_worker stores in the worker table
+        wvs = [norm(st.value) for op, m, key, st in map_ops(aw) if op == 'set' and m == '_workers' and isinstance(st.value, ast.Name)]
+        AWV = wvs[0] if wvs else 'worker'
+        term = any(last_attr(c) == 'terminate' and receiver(c) == AWV for x in ast.walk(h) for c in ([x] if isinstance(x, ast.Call) else []))
         rer = any(isinstance(x, ast.Raise) and x.exc is None for x in h.body)
         ok = dels == {'_workers', '_queues'} and term and rer and h.type is None
         ctx.check('R2', 'Pool.add_worker: a failed registration removes the worker from both tables, terminates it and re-raises', ok, 'Pool.add_worker',
@@ -220,8 +227,8 @@ def run(ctx):
     ctx.check('R3', 'Pool.run keeps `_closed` across runs', '_closed' not in reinit, 'Pool.run', 'closed-set-reset',
               'Pool.run forgets which workers are dead: the next run hands work to dead workers', where=loc(run, run.node))
     # restart re-enables workers: restart_workers must drop the old id from _closed? (ids change for process/remote; thread ids change too)
-    from .c07 import check_enqueue_callers
-    check_enqueue_callers(ctx, pool, run, run.nested, rule='R3')
+    from .c07 import check_enqueue_callers, closure_roles
+    check_enqueue_callers(ctx, pool, run, closure_roles(ctx, run), rule='R3')
     # frame: who may touch the pool-level state
     POOL_FRAME = {
         '_workers': {'__init__', 'add_worker', 'attach', 'restart_workers'},
